@@ -4,6 +4,9 @@ theories/Spec/BV.vos theories/Spec/BV.vok theories/Spec/BV.required_vos: theorie
 theories/Spec/Eval.vo theories/Spec/Eval.glob theories/Spec/Eval.v.beautified theories/Spec/Eval.required_vo: theories/Spec/Eval.v theories/Model/Expr.vo
 theories/Spec/Eval.vio: theories/Spec/Eval.v theories/Model/Expr.vio
 theories/Spec/Eval.vos theories/Spec/Eval.vok theories/Spec/Eval.required_vos: theories/Spec/Eval.v theories/Model/Expr.vos
+theories/Spec/Smt.vo theories/Spec/Smt.glob theories/Spec/Smt.v.beautified theories/Spec/Smt.required_vo: theories/Spec/Smt.v theories/Spec/BV.vo
+theories/Spec/Smt.vio: theories/Spec/Smt.v theories/Spec/BV.vio
+theories/Spec/Smt.vos theories/Spec/Smt.vok theories/Spec/Smt.required_vos: theories/Spec/Smt.v theories/Spec/BV.vos
 theories/Spec/System.vo theories/Spec/System.glob theories/Spec/System.v.beautified theories/Spec/System.required_vo: theories/Spec/System.v theories/Spec/Eval.vo
 theories/Spec/System.vio: theories/Spec/System.v theories/Spec/Eval.vio
 theories/Spec/System.vos theories/Spec/System.vok theories/Spec/System.required_vos: theories/Spec/System.v theories/Spec/Eval.vos
@@ -16,6 +19,9 @@ theories/Model/Expr.vos theories/Model/Expr.vok theories/Model/Expr.required_vos
 theories/Model/Simplify.vo theories/Model/Simplify.glob theories/Model/Simplify.v.beautified theories/Model/Simplify.required_vo: theories/Model/Simplify.v theories/Model/EvalImpl.vo
 theories/Model/Simplify.vio: theories/Model/Simplify.v theories/Model/EvalImpl.vio
 theories/Model/Simplify.vos theories/Model/Simplify.vok theories/Model/Simplify.required_vos: theories/Model/Simplify.v theories/Model/EvalImpl.vos
+theories/Model/SmtSer.vo theories/Model/SmtSer.glob theories/Model/SmtSer.v.beautified theories/Model/SmtSer.required_vo: theories/Model/SmtSer.v theories/Model/Expr.vo theories/Spec/Smt.vo theories/Model/EvalImpl.vo
+theories/Model/SmtSer.vio: theories/Model/SmtSer.v theories/Model/Expr.vio theories/Spec/Smt.vio theories/Model/EvalImpl.vio
+theories/Model/SmtSer.vos theories/Model/SmtSer.vok theories/Model/SmtSer.required_vos: theories/Model/SmtSer.v theories/Model/Expr.vos theories/Spec/Smt.vos theories/Model/EvalImpl.vos
 theories/Proofs/BVLemmas.vo theories/Proofs/BVLemmas.glob theories/Proofs/BVLemmas.v.beautified theories/Proofs/BVLemmas.required_vo: theories/Proofs/BVLemmas.v theories/Spec/BV.vo
 theories/Proofs/BVLemmas.vio: theories/Proofs/BVLemmas.v theories/Spec/BV.vio
 theories/Proofs/BVLemmas.vos theories/Proofs/BVLemmas.vok theories/Proofs/BVLemmas.required_vos: theories/Proofs/BVLemmas.v theories/Spec/BV.vos
@@ -28,6 +34,24 @@ theories/Proofs/EvalProofs.vos theories/Proofs/EvalProofs.vok theories/Proofs/Ev
 theories/Proofs/ExprLemmas.vo theories/Proofs/ExprLemmas.glob theories/Proofs/ExprLemmas.v.beautified theories/Proofs/ExprLemmas.required_vo: theories/Proofs/ExprLemmas.v theories/Model/Expr.vo
 theories/Proofs/ExprLemmas.vio: theories/Proofs/ExprLemmas.v theories/Model/Expr.vio
 theories/Proofs/ExprLemmas.vos theories/Proofs/ExprLemmas.vok theories/Proofs/ExprLemmas.required_vos: theories/Proofs/ExprLemmas.v theories/Model/Expr.vos
+theories/Proofs/SmtCharLemmas.vo theories/Proofs/SmtCharLemmas.glob theories/Proofs/SmtCharLemmas.v.beautified theories/Proofs/SmtCharLemmas.required_vo: theories/Proofs/SmtCharLemmas.v theories/Model/SmtSer.vo
+theories/Proofs/SmtCharLemmas.vio: theories/Proofs/SmtCharLemmas.v theories/Model/SmtSer.vio
+theories/Proofs/SmtCharLemmas.vos theories/Proofs/SmtCharLemmas.vok theories/Proofs/SmtCharLemmas.required_vos: theories/Proofs/SmtCharLemmas.v theories/Model/SmtSer.vos
+theories/Proofs/SmtCmdProofs.vo theories/Proofs/SmtCmdProofs.glob theories/Proofs/SmtCmdProofs.v.beautified theories/Proofs/SmtCmdProofs.required_vo: theories/Proofs/SmtCmdProofs.v theories/Model/SmtSer.vo theories/Proofs/BVLemmas.vo theories/Proofs/ExprLemmas.vo theories/Proofs/EvalProofs.vo theories/Proofs/SmtCharLemmas.vo theories/Proofs/SmtSerLemmas.vo theories/Proofs/SmtSemLemmas.vo theories/Proofs/SmtSerProofs.vo
+theories/Proofs/SmtCmdProofs.vio: theories/Proofs/SmtCmdProofs.v theories/Model/SmtSer.vio theories/Proofs/BVLemmas.vio theories/Proofs/ExprLemmas.vio theories/Proofs/EvalProofs.vio theories/Proofs/SmtCharLemmas.vio theories/Proofs/SmtSerLemmas.vio theories/Proofs/SmtSemLemmas.vio theories/Proofs/SmtSerProofs.vio
+theories/Proofs/SmtCmdProofs.vos theories/Proofs/SmtCmdProofs.vok theories/Proofs/SmtCmdProofs.required_vos: theories/Proofs/SmtCmdProofs.v theories/Model/SmtSer.vos theories/Proofs/BVLemmas.vos theories/Proofs/ExprLemmas.vos theories/Proofs/EvalProofs.vos theories/Proofs/SmtCharLemmas.vos theories/Proofs/SmtSerLemmas.vos theories/Proofs/SmtSemLemmas.vos theories/Proofs/SmtSerProofs.vos
+theories/Proofs/SmtSemLemmas.vo theories/Proofs/SmtSemLemmas.glob theories/Proofs/SmtSemLemmas.v.beautified theories/Proofs/SmtSemLemmas.required_vo: theories/Proofs/SmtSemLemmas.v theories/Model/SmtSer.vo theories/Proofs/BVLemmas.vo theories/Proofs/SmtSerLemmas.vo
+theories/Proofs/SmtSemLemmas.vio: theories/Proofs/SmtSemLemmas.v theories/Model/SmtSer.vio theories/Proofs/BVLemmas.vio theories/Proofs/SmtSerLemmas.vio
+theories/Proofs/SmtSemLemmas.vos theories/Proofs/SmtSemLemmas.vok theories/Proofs/SmtSemLemmas.required_vos: theories/Proofs/SmtSemLemmas.v theories/Model/SmtSer.vos theories/Proofs/BVLemmas.vos theories/Proofs/SmtSerLemmas.vos
+theories/Proofs/SmtSerLemmas.vo theories/Proofs/SmtSerLemmas.glob theories/Proofs/SmtSerLemmas.v.beautified theories/Proofs/SmtSerLemmas.required_vo: theories/Proofs/SmtSerLemmas.v theories/Model/SmtSer.vo theories/Proofs/BVLemmas.vo theories/Proofs/SmtCharLemmas.vo
+theories/Proofs/SmtSerLemmas.vio: theories/Proofs/SmtSerLemmas.v theories/Model/SmtSer.vio theories/Proofs/BVLemmas.vio theories/Proofs/SmtCharLemmas.vio
+theories/Proofs/SmtSerLemmas.vos theories/Proofs/SmtSerLemmas.vok theories/Proofs/SmtSerLemmas.required_vos: theories/Proofs/SmtSerLemmas.v theories/Model/SmtSer.vos theories/Proofs/BVLemmas.vos theories/Proofs/SmtCharLemmas.vos
+theories/Proofs/SmtSerProofs.vo theories/Proofs/SmtSerProofs.glob theories/Proofs/SmtSerProofs.v.beautified theories/Proofs/SmtSerProofs.required_vo: theories/Proofs/SmtSerProofs.v theories/Model/SmtSer.vo theories/Proofs/BVLemmas.vo theories/Proofs/ExprLemmas.vo theories/Proofs/EvalProofs.vo theories/Proofs/SmtCharLemmas.vo theories/Proofs/SmtSerLemmas.vo theories/Proofs/SmtSemLemmas.vo
+theories/Proofs/SmtSerProofs.vio: theories/Proofs/SmtSerProofs.v theories/Model/SmtSer.vio theories/Proofs/BVLemmas.vio theories/Proofs/ExprLemmas.vio theories/Proofs/EvalProofs.vio theories/Proofs/SmtCharLemmas.vio theories/Proofs/SmtSerLemmas.vio theories/Proofs/SmtSemLemmas.vio
+theories/Proofs/SmtSerProofs.vos theories/Proofs/SmtSerProofs.vok theories/Proofs/SmtSerProofs.required_vos: theories/Proofs/SmtSerProofs.v theories/Model/SmtSer.vos theories/Proofs/BVLemmas.vos theories/Proofs/ExprLemmas.vos theories/Proofs/EvalProofs.vos theories/Proofs/SmtCharLemmas.vos theories/Proofs/SmtSerLemmas.vos theories/Proofs/SmtSemLemmas.vos
+theories/Props/C05.vo theories/Props/C05.glob theories/Props/C05.v.beautified theories/Props/C05.required_vo: theories/Props/C05.v theories/Model/SmtSer.vo theories/Proofs/SmtSerLemmas.vo theories/Proofs/SmtSemLemmas.vo theories/Proofs/SmtSerProofs.vo theories/Proofs/SmtCmdProofs.vo
+theories/Props/C05.vio: theories/Props/C05.v theories/Model/SmtSer.vio theories/Proofs/SmtSerLemmas.vio theories/Proofs/SmtSemLemmas.vio theories/Proofs/SmtSerProofs.vio theories/Proofs/SmtCmdProofs.vio
+theories/Props/C05.vos theories/Props/C05.vok theories/Props/C05.required_vos: theories/Props/C05.v theories/Model/SmtSer.vos theories/Proofs/SmtSerLemmas.vos theories/Proofs/SmtSemLemmas.vos theories/Proofs/SmtSerProofs.vos theories/Proofs/SmtCmdProofs.vos
 theories/Props/C06.vo theories/Props/C06.glob theories/Props/C06.v.beautified theories/Props/C06.required_vo: theories/Props/C06.v theories/Model/EvalImpl.vo theories/Proofs/EvalProofs.vo theories/Proofs/EvalImplProofs.vo
 theories/Props/C06.vio: theories/Props/C06.v theories/Model/EvalImpl.vio theories/Proofs/EvalProofs.vio theories/Proofs/EvalImplProofs.vio
 theories/Props/C06.vos theories/Props/C06.vok theories/Props/C06.required_vos: theories/Props/C06.v theories/Model/EvalImpl.vos theories/Proofs/EvalProofs.vos theories/Proofs/EvalImplProofs.vos
